@@ -203,7 +203,24 @@ fn get_var_name(mut var_id: usize) -> String {
         var_name.push(VAR_NAME_CHARS[var_id % VAR_NAME_CHARS.len()]);
         var_id /= VAR_NAME_CHARS.len();
     }
+    if is_js_reserved_word(var_name.as_str()) {
+        // a generated name never ends with `_` (its last digit is non-zero), so the names stay distinct
+        var_name.push('_');
+    }
     var_name
+}
+
+/// Whether the name cannot be used as a variable name in (strict mode) JavaScript.
+fn is_js_reserved_word(name: &str) -> bool {
+    match name {
+        "break" | "case" | "catch" | "class" | "const" | "continue" | "debugger" | "default"
+        | "delete" | "do" | "else" | "enum" | "export" | "extends" | "false" | "finally" | "for"
+        | "function" | "if" | "import" | "in" | "instanceof" | "new" | "null" | "return"
+        | "super" | "switch" | "this" | "throw" | "true" | "try" | "typeof" | "var" | "void"
+        | "while" | "with" | "yield" | "let" | "static" | "implements" | "interface"
+        | "package" | "private" | "protected" | "public" | "await" | "eval" | "arguments" => true,
+        _ => false,
+    }
 }
 
 impl<'a, W: fmt::Write> JsFunctionScopeWriter<'a, W> {
